@@ -1,4 +1,4 @@
-use vh::{engine, merge, props, selftest};
+use vh::{engine, merge, selftest};
 
 use vh::engine::{Ctx, Tier};
 
